@@ -1,1 +1,4 @@
-pub fn hello() {}
+pub mod check;
+pub mod model;
+pub mod rng;
+pub mod report;
